@@ -16,6 +16,30 @@ def SlotOK (cap : Cap) (p : Pool) : Prop :=
 def PhaseOK (p : Pool) : Prop :=
   ∀ (t : Nat) (tk : PTask), p.tasks[t]? = some tk → NYR tk.phase = true → tk.released = false
 
+/-- all task ids filed under some group, in registry order -/
+def flat (gs : List (String × List Nat)) : List Nat := (gs.map (·.2)).flatten
+
+@[simp] theorem flat_nil : flat [] = [] := rfl
+@[simp] theorem flat_cons (x : String × List Nat) (gs) : flat (x :: gs) = x.2 ++ flat gs := rfl
+@[simp] theorem flat_append (a b : List (String × List Nat)) : flat (a ++ b) = flat a ++ flat b := by
+  simp [flat]
+
+theorem flat_filter_sublist (gs : List (String × List Nat)) (f : String × List Nat → Bool) :
+    (flat (gs.filter f)).Sublist (flat gs) := by
+  induction gs with
+  | nil => simp
+  | cons x xs ih =>
+    simp only [List.filter_cons]
+    split
+    · simp only [flat_cons]; exact List.Sublist.append (List.Sublist.refl _) ih
+    · simp only [flat_cons]; exact ih.trans (List.sublist_append_right _ _)
+
+/-- groups partition (some of) the tasks: no id is filed under two groups or twice, and every filed id is the id of
+an existing task -/
+structure GroupsOK (p : Pool) : Prop where
+  nd : (flat p.groups).Nodup
+  lt : ∀ i ∈ flat p.groups, i < p.tasks.length
+
 /-- the three registries are sound (and, as long as nothing was `lost`, complete) with respect to the tasks -/
 structure RegOK (p : Pool) : Prop where
   nd : (p.running ++ p.cancelledR ++ p.ended).Nodup
@@ -30,6 +54,7 @@ structure Good (cap : Cap) (p : Pool) : Prop where
   slot : SlotOK cap p
   phase : PhaseOK p
   reg : RegOK p
+  grp : GroupsOK p
 
 /-- `q` is `p` up to changes that neither move a slot nor put a task (back) into a slot-holding phase -/
 structure Tame (p q : Pool) : Prop where
@@ -41,6 +66,7 @@ structure Tame (p q : Pool) : Prop where
   fin : q.ended = p.ended
   lost : q.lost = p.lost
   wnil : p.sem.waiters = [] → q.sem.waiters = []
+  gfl : (flat q.groups).Sublist (flat p.groups)
   pt : ∀ (t : Nat) (tk' : PTask), q.tasks[t]? = some tk' →
         ∃ tk : PTask, p.tasks[t]? = some tk ∧ tk'.released = tk.released ∧ (tk'.phase = tk.phase ∨ NYR tk'.phase = false)
 
@@ -101,11 +127,11 @@ theorem getElem?_modify_some {α} (l : List α) (t i : Nat) (f : α → α) (y :
 /-! ### Tame: algebra -/
 
 theorem Tame.refl (p : Pool) : Tame p p :=
-  ⟨rfl, rfl, rfl, rfl, rfl, rfl, rfl, fun h => h, fun _ tk' h => ⟨tk', h, rfl, Or.inl rfl⟩⟩
+  ⟨rfl, rfl, rfl, rfl, rfl, rfl, rfl, fun h => h, List.Sublist.refl _, fun _ tk' h => ⟨tk', h, rfl, Or.inl rfl⟩⟩
 
 theorem Tame.trans {p q r : Pool} (h1 : Tame p q) (h2 : Tame q r) : Tame p r := by
   refine ⟨h2.val.trans h1.val, h2.grants.trans h1.grants, h2.len.trans h1.len, h2.run.trans h1.run,
-    h2.can.trans h1.can, h2.fin.trans h1.fin, h2.lost.trans h1.lost, fun h => h2.wnil (h1.wnil h), ?_⟩
+    h2.can.trans h1.can, h2.fin.trans h1.fin, h2.lost.trans h1.lost, fun h => h2.wnil (h1.wnil h), h2.gfl.trans h1.gfl, ?_⟩
   intro t tk'' h
   obtain ⟨tk', hq, hr', hp'⟩ := h2.pt t tk'' h
   obtain ⟨tk, hp, hr, hph⟩ := h1.pt t tk' hq
@@ -172,8 +198,15 @@ theorem Tame.reg {p q : Pool} (h : Tame p q) (hr : RegOK p) : RegOK q := by
     rw [h.run, h.can]
     exact hr.cpl hl t tk a (b ▸ hrel)
 
+theorem GroupsOK.of_eq {p q : Pool} (hr : GroupsOK p) (hg : q.groups = p.groups) (hl : q.tasks.length = p.tasks.length) :
+    GroupsOK q :=
+  ⟨by rw [hg]; exact hr.nd, fun i hi => by rw [hl]; rw [hg] at hi; exact hr.lt i hi⟩
+
+theorem Tame.grp {p q : Pool} (h : Tame p q) (hr : GroupsOK p) : GroupsOK q :=
+  ⟨h.gfl.nodup hr.nd, fun i hi => by rw [h.len]; exact hr.lt i (h.gfl.subset hi)⟩
+
 theorem Tame.good {cap : Cap} {p q : Pool} (h : Tame p q) (hg : Good cap p) : Good cap q :=
-  ⟨h.slot hg.slot, h.phase hg.phase, h.reg hg.reg⟩
+  ⟨h.slot hg.slot, h.phase hg.phase, h.reg hg.reg, h.grp hg.grp⟩
 
 /-- released flag of a task is preserved along a tame change -/
 theorem Tame.released {p q : Pool} (h : Tame p q) (t : Nat) (tk : PTask) (hp : p.tasks[t]? = some tk) :
@@ -186,8 +219,9 @@ theorem Tame.released {p q : Pool} (h : Tame p q) (t : Nat) (tk : PTask) (hp : p
 
 theorem tame_of_eq (p q : Pool) (hs : q.sem = p.sem) (ht : q.tasks = p.tasks)
     (h1 : q.running = p.running := by rfl) (h2 : q.cancelledR = p.cancelledR := by rfl)
-    (h3 : q.ended = p.ended := by rfl) (h4 : q.lost = p.lost := by rfl) : Tame p q := by
-  refine ⟨by rw [hs], by rw [hs], by rw [ht], h1, h2, h3, h4, by rw [hs]; exact fun h => h, ?_⟩
+    (h3 : q.ended = p.ended := by rfl) (h4 : q.lost = p.lost := by rfl)
+    (h5 : (flat q.groups).Sublist (flat p.groups) := by exact List.Sublist.refl _) : Tame p q := by
+  refine ⟨by rw [hs], by rw [hs], by rw [ht], h1, h2, h3, h4, by rw [hs]; exact fun h => h, h5, ?_⟩
   intro t tk' h; rw [ht] at h; exact ⟨tk', h, rfl, Or.inl rfl⟩
 
 namespace Pool
@@ -213,7 +247,7 @@ namespace Pool
 theorem tame_modTask (p : Pool) (t : Nat) (f : PTask → PTask)
     (hr : ∀ x, (f x).released = x.released) (hp : ∀ x, (f x).phase = x.phase ∨ NYR (f x).phase = false) :
     Tame p (p.modTask t f) := by
-  refine ⟨rfl, rfl, by simp [modTask], rfl, rfl, rfl, rfl, fun h => h, ?_⟩
+  refine ⟨rfl, rfl, by simp [modTask], rfl, rfl, rfl, rfl, fun h => h, List.Sublist.refl _, ?_⟩
   intro i tk' h
   obtain ⟨x, hx, rfl⟩ := getElem?_modify_some p.tasks t i f tk' h
   refine ⟨x, hx, ?_, ?_⟩ <;> split <;> simp_all
@@ -283,7 +317,7 @@ theorem grantsL_cancelWaiterL (m : Nat) (ws : List Waiter) : grantsL (cancelWait
 
 theorem tame_cancelPoolWaiter (p : Pool) (m : Nat) :
     Tame p ({ p with sem := { p.sem with waiters := cancelWaiterL m p.sem.waiters } } : Pool) :=
-  ⟨rfl, grantsL_cancelWaiterL m _, rfl, rfl, rfl, rfl, rfl, fun h => by simp [h, cancelWaiterL],
+  ⟨rfl, grantsL_cancelWaiterL m _, rfl, rfl, rfl, rfl, rfl, fun h => by simp [h, cancelWaiterL], List.Sublist.refl _,
    fun _ tk' h => ⟨tk', h, rfl, Or.inl rfl⟩⟩
 
 theorem tame_metaCancel (p : Pool) (m) : Tame p (p.metaCancel m) := by
